@@ -26,6 +26,10 @@ def entropic_mirror_descent(loss_and_grad, x0, total, iters=250):
     begun = False
 
     for _ in range(iters):
+        # the step is invariant to adding a constant to dL (Q is renormalized),
+        # but a large constant times a large alpha destroys the precision of
+        # logQ and of dL.dot(P-Q); remove it before it is scaled by alpha
+        dL = dL - dL.mean()
         logQ = logP - alpha*dL
         logQ += np.log(total) - logsumexp(logQ)
         Q = np.exp(logQ)
